@@ -264,11 +264,13 @@ theorem pushScalar_small (ext : Ext) : ∀ (b : B) (x : SVal) (b' : B), pushScal
     · split at h
       · obtain ⟨idx', h1, h2⟩ := (bind_ok _ _ _).1 h
         cases h2
+        rw [ctx_eq_ok] at h1
         simp only [ViewSmall]
         exact fun hs => ⟨pushScalar_small ext idx _ idx' h1 hs.1, hs.2⟩
       · obtain ⟨vals', h1, h2⟩ := (bind_ok _ _ _).1 h
         obtain ⟨idx', h3, h4⟩ := (bind_ok _ _ _).1 h2
         cases h4
+        rw [ctx_eq_ok] at h1 h3
         simp only [ViewSmall]
         exact fun hs => ⟨pushScalar_small ext idx _ idx' h3 hs.1, pushScalar_small ext vals _ vals' h1 hs.2⟩
     · simp [notSupported, fail] at h
